@@ -42,6 +42,40 @@ def truncations(rng, n):
     return [('module cut after %d characters (no line end at the end of the file)' % c, TRUNCATED[:c]) for c in sorted(cuts[:n])]
 
 
+# programs in which every offending construct stands on a line of its own: (source, [(error variant, line of its primary location, the text the span must start with)])
+PRIMARY = [
+    ('fn g(a: i32, b: i32)\n{\n}\n\nfn f()\n{\n\tvar x: i32 = 1;\n\tg(x);\n\tg(x, x, x);\n\tvar y: i32 = g(x, x);\n}\n',
+     [('TooFewArguments', 8, 'g'), ('TooManyArguments', 9, 'g'), ('ConflictingTypesInAssignment', 10, 'g')]),
+    ('fn g(a: i32)\n{\n}\n\nfn f()\n{\n\tg("abc"\n\t\t"def"\n\t\t"ghi");\n\tvar x: i32 = "abc"\n\t\t"def";\n}\n',
+     [('ArgumentTypeMismatch', 7, '"abc"'), ('ConflictingTypesInAssignment', 10, '"abc"')]),
+    ('fn h() -> i32\n{\n\treturn: 1\n}\n\nfn g(p: &i32)\n{\n}\n\nfn f()\n{\n\tvar b: bool = true;\n\tb =\n\t\th();\n\tg(\n\t\th());\n}\n',
+     [('ConflictingTypesInAssignment', 14, 'h'), ('ArgumentTypeMismatch', 16, 'h')]),
+    ('fn f()\n{\n\tvar x: i32 = 1;\n\tx = undefined_function(x);\n\tx =\n\t\tundefined_variable;\n\tgoto nowhere;\n}\n',
+     [('UndefinedFunction', 4, 'undefined_function'), ('UndefinedVariable', 6, 'undefined_variable'), ('UndefinedLabel', 7, 'nowhere')]),
+]
+
+
+def check_primary(src, expected, r):
+    if r.get('status') != 'ok':
+        return None
+    try:
+        dump = bytes.fromhex(r['result'].get('dump', '')).decode('utf-8', 'replace')
+    except ValueError:
+        return None
+    for variant, line, text in expected:
+        i = dump.find(variant + ' {')
+        if i < 0:
+            return 'the diagnostic %s is not reported' % variant
+        j = dump.find(' location: Location {', i)
+        m = LOC.search(dump, j) if j >= 0 else None
+        if not m:
+            return 'the diagnostic %s has no primary location' % variant
+        a, b, ln, lo = (int(x) for x in m.groups())
+        if ln != line or not src[a:].startswith(text):
+            return 'the primary location of %s is line %d, text %r; the offending construct %r stands on line %d' % (variant, ln, src[a:b][:30], text, line)
+    return None
+
+
 def inputs(rng, n_samples):
     out = [('multi-line construct #%d' % i, s) for i, s in enumerate(MULTILINE)]
     out += truncations(rng, 120 if n_samples <= 60 else len(TRUNCATED))
@@ -94,6 +128,15 @@ def search(deadline, rng, n_samples=60):
         m = check(src, r)
         return (what, src, r, m) if m else None
 
+    for k, (src, expected) in enumerate(PRIMARY):
+        r = replayrun.run('alphadump', src.encode('utf-8'), timeout=30)
+        m = check_primary(src, expected, r)
+        if m:
+            return {'mode': 'alphadump', 'input_utf8_lossy': src, 'input_hex': src.encode('utf-8').hex(),
+                    'observed': {'status': r.get('status'), 'errors': (r.get('result') or {}).get('errors')},
+                    'expected': 'every diagnostic points at the construct it is about (program #%d, each offending construct on a line of its own); %s' % (k, m),
+                    'expect_primary_locations': k,
+                    'how': 'replay_runner alphadump <file>: Debug form of all diagnostics; the `location:` field of each expected diagnostic is compared with the line and text of the construct'}
     with cf.ThreadPoolExecutor(12) as ex:
         for hit in ex.map(one, inputs(rng, n_samples)):
             if hit:
